@@ -48,6 +48,13 @@ Proof.
 Qed.
 Print Assumptions C06_completes_refuted_before_fix.
 
+(* why the determination is one compare-and-swap: split into a load and a store (a seeded change,
+   not the code), two simultaneously triggered alternatives both win *)
+Theorem C06_one_winner_refuted_with_split_test_and_set :
+  exists s, tas_exec {| flag := false; saw := [None; None]; winners := 0 |} [TLoad 0; TLoad 1; TStore 0; TStore 1] = Some s /\ winners s = 2.
+Proof. exact refuted_split_test_and_set. Qed.
+Print Assumptions C06_one_winner_refuted_with_split_test_and_set.
+
 Example C06_nonvacuous :
   exists s, gexec true (ginit 3) [Deliver 1; Deliver 2; Cas 2; Notify; Cas 1; Notify; TakeNotice 0; Proceed; Deliver 0; Deliver 1] = Some s /\
     alts s = [Withdrawn; Lost; Continued] /\ conts s = 1.
